@@ -3,10 +3,10 @@
 # Confirms in the scratch worktree /tmp/seed-<id>: patch applies to a clean tree, existing suite passes with it,
 # demo fails with it and passes without it. On success stores /verif/seeded/<seed-name>/{patch.diff,demo,meta.json}.
 id="$1"; name="$2"; prop="$3"; demo="$4"; needs="$5"
-wt="/tmp/seed-$id"
+wt="/tmp/$id"
 cd "$wt" || exit 2
 [ -f patch.diff ] || git diff -- sylvia-derive sylvia/src > patch.diff
-cp patch.diff /tmp/seed-$id.patch
+cp patch.diff /tmp/$id.patch
 git checkout -q -- sylvia-derive sylvia/src 2>/dev/null
 git stash list >/dev/null
 demo_name=$(basename "$demo" .rs)
@@ -16,7 +16,7 @@ mv /tmp/seed-demo-hold/$(basename "$demo") "$demo"
 echo "== demo WITHOUT change"
 cargo test -p sylvia --offline --features mt,stargate,iterator,cosmwasm_1_4 --test "$demo_name" 2>&1 | grep -E "^test result|^error(\[|:)|could not compile" | head -5
 without=$(cargo test -p sylvia --offline --features mt,stargate,iterator,cosmwasm_1_4 --test "$demo_name" >/dev/null 2>&1; echo $?)
-git apply /tmp/seed-$id.patch || { echo "patch does not apply"; exit 2; }
+git apply /tmp/$id.patch || { echo "patch does not apply"; exit 2; }
 echo "== demo WITH change"
 cargo test -p sylvia --offline --features mt,stargate,iterator,cosmwasm_1_4 --test "$demo_name" 2>&1 | grep -E "^test result|^error(\[|:)|could not compile" | head -5
 with=$(cargo test -p sylvia --offline --features mt,stargate,iterator,cosmwasm_1_4 --test "$demo_name" >/dev/null 2>&1; echo $?)
@@ -28,7 +28,7 @@ echo "without_rc=$without with_rc=$with suite(passed failed builderr)=$suite"
 set -- $suite
 if [ "$without" = "0" ] && [ "$with" != "0" ] && [ "$2" = "0" ] && [ "$3" = "0" ] && [ "$1" -ge 47 ]; then
   d="/verif/seeded/$name"; mkdir -p "$d"
-  cp /tmp/seed-$id.patch "$d/patch.diff"; cp "$demo" "$d/"
+  cp /tmp/$id.patch "$d/patch.diff"; cp "$demo" "$d/"
   python3 - "$d" "$prop" "$needs" "$demo" "$without" "$with" "$1" <<'PY'
 import json, sys
 d, prop, needs, demo, wo, wi, passed = sys.argv[1:8]
